@@ -178,6 +178,28 @@ func anyInt(v any) int {
 
 const pfSock = 0xA00
 
+// pfPatience stretches every wait of this run.  A wait that expires is tried again for five times as long before what
+// is there is recorded: if the effect shows up in that extension the machine is busy, not the code wrong, and the run goes
+// on with long waits; on a tree where the effect never comes the extension is paid once per step and changes nothing.
+var pfPatience = time.Duration(1)
+
+func pfWait(d time.Duration, cond func() bool) {
+	end := time.Now().Add(d * pfPatience)
+	for !cond() && time.Now().Before(end) {
+		time.Sleep(time.Millisecond)
+	}
+	if cond() || pfPatience > 1 {
+		return
+	}
+	end = time.Now().Add(5 * d)
+	for !cond() && time.Now().Before(end) {
+		time.Sleep(2 * time.Millisecond)
+	}
+	if cond() {
+		pfPatience = 6
+	}
+}
+
 func RunPortFwd(behs [][]Step, tr *Trace, env Env, sum *Summary) {
 	w, err := world.New(env.Scratch, world.Options{})
 	must(err)
@@ -220,10 +242,7 @@ func RunPortFwd(behs [][]Step, tr *Trace, env Env, sum *Summary) {
 		}
 		// waitArrival: the reader of s is (or comes) back at the gate with something it has not acted upon
 		waitArrival := func(s string) {
-			end := time.Now().Add(2 * time.Second)
-			for gate[s].count() <= released[s] && time.Now().Before(end) {
-				time.Sleep(time.Millisecond)
-			}
+			pfWait(2*time.Second, func() bool { return gate[s].count() > released[s] })
 		}
 		upSent := map[string][]string{} // chunks the agent sent per socket (accepted or not)
 		wrote := map[string][]string{}  // chunks the target wrote per socket
@@ -345,12 +364,7 @@ func RunPortFwd(behs [][]Step, tr *Trace, env Env, sum *Summary) {
 			}
 			return false
 		}
-		until := func(d time.Duration, cond func() bool) {
-			end := time.Now().Add(d)
-			for !cond() && time.Now().Before(end) {
-				time.Sleep(3 * time.Millisecond)
-			}
-		}
+		until := pfWait
 		tr.Emit(map[string]any{"ev": "Reset", "gated": gated})
 		for si, o := range beh {
 			if wedged {
@@ -412,7 +426,8 @@ func RunPortFwd(behs [][]Step, tr *Trace, env Env, sum *Summary) {
 					_, n0 := queued()
 					base := len(agentGot[s]) + n0[s]
 					what := o.Str("what")
-					end := time.Now().Add(3 * time.Second)
+					end := time.Now().Add(3 * time.Second * pfPatience)
+					extended := pfPatience > 1
 					if gate[s].count() <= released[s] {
 						waitArrival(s)
 					}
@@ -431,8 +446,17 @@ func RunPortFwd(behs [][]Step, tr *Trace, env Env, sum *Summary) {
 						default:
 							done = true
 						}
-						if done || time.Now().After(end) {
+						if done {
+							if extended && pfPatience == 1 {
+								pfPatience = 6 // the effect came late: the machine is busy
+							}
 							break
+						}
+						if time.Now().After(end) {
+							if extended {
+								break
+							}
+							extended, end = true, time.Now().Add(15*time.Second)
 						}
 						if back { // a chunk that came in several reads: the rest needs another turn
 							released[s]++
